@@ -349,6 +349,24 @@ def _stmts():
     def setop(Q, t, o):
         return Q.from_(t).select(t.a).union(Q.from_(o).select(o.a))
 
+    def sel_join_chain(Q, t, o):
+        # the replaced table is a joined table, and a later join's criterion refers to it
+        f4 = T("fourth")
+        return Q.from_(o).select(o.a, t.b, f4.c).join(t).on(o.id == t.oid).join(f4).on(t.id == f4.tid).where(t.z > 1)
+
+    def sel_join_chain_using(Q, t, o):
+        f4 = T("fourth")
+        return Q.from_(o).select(o.a).left_join(t).using("id").join(f4).on((f4.tid == t.id) & (f4.k == o.k))
+
+    def update_join_chain(Q, t, o):
+        f4 = T("fourth")
+        return Q.update(o).join(t).on(o.id == t.oid).join(f4).on(t.id == f4.tid).set(o.a, f4.c)
+
+    def sel_mixed_connective_chain(Q, t, o):
+        # left-deep chains of three and more links with mixed connectives (successive where() calls over an OR group)
+        return (Q.from_(t).select(t.a).where((t.x == 1) | (t.y == 2)).where(t.z == 3).where(t.w == 4).where((t.p == 5) | (o.q == t.q))
+                .having(((t.h == 1) | (t.i == 2)) & (t.j == 3) & (t.k == 4)))
+
     def setop_orderby_field(Q, t, o):
         # plain column keys (Field objects and strings) in the set operation's own ORDER BY, plus an expression key
         return Q.from_(t).select(t.a, t.name).union(Q.from_(o).select(o.a, o.name)).orderby(t.name).orderby("a").orderby(t.a + 1)
@@ -399,7 +417,7 @@ STATEMENTS = ["sel_from", "sel_all_clauses", "sel_join_item", "sel_join_criterio
               "sel_for_update", "insert_values", "insert_select", "insert_into_target", "upsert", "upsert_conflict_where", "update_set",
               "update_set_value_other", "update_join", "delete", "returning", "distinct_on", "prewhere", "rollup", "setop",
               "sel_twin_terms", "sel_twin_terms_where", "sel_subquery_list", "sel_subquery_operands",
-              "setop_orderby_field", "setop_three_branches", "from_two_sources_then_subquery", "from_subquery_then_table", "update_from_two_sources",
+              "sel_join_chain", "sel_join_chain_using", "update_join_chain", "sel_mixed_connective_chain", "setop_orderby_field", "setop_three_branches", "from_two_sources_then_subquery", "from_subquery_then_table", "update_from_two_sources",
               "from_same_table_twice", "join_collate", "join_collate_other", "update_join_collate", "returning_delete", "returning_delete_join", "returning_update", "returning_insert_select", "distinct_on_expr", "analytic_expr_keys"]
 
 
